@@ -640,8 +640,73 @@ def distribution(cx):
             % (fmt(pos), fmt(pst), fmt(idr)))
 
 
+def run_union_idref(run):
+    """unions with an identityref member (the common `union { type identityref {...} type string; }` shape): the union hands its format and prefix data
+    on to the member, so the SAME text is an identity in one format and a plain string in another"""
+    from checks import valcomp
+    cx = run.cx
+    rng = cx.sub_rng("union-idref")
+    cases, types, vals = [], [], {}
+    for k in range(cx.n(3, 16)):
+        g0 = diamond(100 + k) if k == 0 else random_graph(rng, 100 + k)
+        roots = [i for i, _ in g0.defs]
+        bases = [rng.choice(roots)] if k else [("ma100", "top")]
+        for shape in range(2):
+            lm = "lu%d" % (2 * k + shape)
+            g = Graph(g0.k, list(g0.defs) + [((lm, "loc"), [bases[0]])])
+            idd = "idref:%s:%s@%s" % (lm, "+".join("%s.%s" % b for b in bases), g.text())
+            u = ("U(%s|str:0..12)" % idd) if shape == 0 else ("U(i8|%s|%s)" % (idd, E2))
+            types.append((u, lm, g))
+    for u, lm, g in types:
+        vs = [(f, v) for f, v in idref_values(g, lm) if len(v) <= 14] + [("json", "1"), ("json", "true"), ("json", "-129"), ("xml", "10"), ("json", "a" * 13)]
+        vs = vs if cx.tier == "thorough" else rng.sample(vs, min(len(vs), 60))
+        vals[u] = vs
+        nsch = 0
+        for fmt, v in vs:
+            if fmt == "json":
+                cases.append("validate %s %s" % (u, hx(v)))
+                cases.append("idfmt %s json %s" % (u, hx(v)))
+            elif fmt == "lyb":
+                for idx in (0, 1, 2, 3):
+                    cases.append("idfmt %s lyb %s" % (u, hexs(idx.to_bytes(4, "little") + v.encode())))
+            elif fmt == "schema":
+                if nsch < cx.n(6, 40) and all(ord(c) >= 0x20 for c in v):
+                    nsch += 1
+                    cases.append("idfmt %s schema %s" % (u, hx(v)))
+            else:
+                cases.append("idfmt %s %s %s" % (u, fmt, hx(v)))
+        for fmt, v in vs[::7]:
+            for h in (HINT_JSON_NUMBER, HINT_JSON_STRING):
+                cases.append("store %s %d %s" % (u, h, hx(v)))
+    run.diff(cases)
+    cx.rule("val: unions with an identityref member: %d unions (identityref + string; int8 + identityref + enumeration) over %d identity sets; every identity in "
+            "every spelling through JSON (module names), XML prefixes, schema import prefixes and LYB with every member index" % (len(types), len(types) // 2))
+    for c in cases:
+        r = run.get(c)
+        t = c.split()
+        cx.count(("union-idref", c), True, "val:union-idref:%s:%s" % (t[2] if t[0] == "idfmt" else t[0], "accept" if r[0] == "ok" else r[1]))
+    cases, pairs, accepted = [], {}, {}
+    for u, lm, g in types:
+        acc = [v.encode() for f, v in vals[u] if f == "json" and run.get("validate %s %s" % (u, hx(v)))[0] == "ok"]
+        if len(acc) < 2:
+            continue
+        accepted[u] = acc
+        pr = [(a, b) for a in acc for b in acc]
+        if len(pr) > cx.n(30, 200):
+            pr = rng.sample(pr, cx.n(30, 200))
+        pairs[u] = (acc[:6], pr)
+        for a, b in pr:
+            cases += ["cmp %s %s %s" % (u, hx(a), hx(b)), "cmp %s %s %s" % (u, hx(b), hx(a))]
+        for a in acc[:6]:
+            c = unhex(run.get("validate %s %s" % (u, hx(a)))[1])
+            cases += ["lybrt %s %s" % (u, hx(a)), "validate %s %s" % (u, hx(c)), "cmp %s %s %s" % (u, hx(a), hx(c))]
+    run.diff(cases)
+    valcomp.laws_value(run, accepted, pairs)
+
+
 def run_all(run):
     run_union(run)
     run_pstr(run)
     run_idref(run)
+    run_union_idref(run)
     distribution(run.cx)
